@@ -220,8 +220,10 @@ StepUp(i) ==
              IF s.kind = "src" THEN /\ loc' = [loc EXCEPT ![i].st = "own", ![i].k = @ + 1, ![i].pos = 0]
                                     /\ ctl' = Up(i + 1, <<"Res", l.k + 1>>) /\ UNCHANGED exc
              ELSE IF s.kind = "fault" /\ s.at = "end" THEN Raise(i)
-             ELSE /\ loc' = [loc EXCEPT ![i].committed = (s.kind = "obs"),
-                                        ![i].calls = IF s.kind = "fin" THEN @ + 1 ELSE @]
+             ELSE IF s.kind = "fin" /\ l.calls = 0            \* the wrapped iterator is exhausted: the callback runs now,
+             THEN /\ loc' = [loc EXCEPT ![i].calls = 1]       \* before the end of the stream is passed on
+                  /\ UNCHANGED <<ctl, exc>>
+             ELSE /\ loc' = [loc EXCEPT ![i].committed = (s.kind = "obs")]
                   /\ ctl' = Up(i + 1, <<"EndAll">>) /\ UNCHANGED exc
    /\ UNCHANGED <<steps, phase, pkgDone, out, cur, pulled, maxLook>>
 
@@ -255,4 +257,5 @@ FinalizerAtEnd == \A i \in 1..N : (steps[i].kind = "fin" /\ loc[i].calls = 1) =>
 Buffering == \E i \in 1..N : steps[i].kind = "sort"
 LookBound == MaxNat(MaxNat(Sample, Ahead), 1) - 1
 BoundedLookahead == ~Buffering => maxLook <= LookBound
+LookBoundEvenWhenBuffering == maxLook <= LookBound      \* NOT a property: violated as soon as a sort is present (non-vacuity check)
 =============================================================================
